@@ -299,6 +299,27 @@ impl PipeState {
         }
     }
 
+    /// Rebuild the wire history from a recorded run (threaded engine): these bytes were written in `d`.
+    pub fn replay_write(&mut self, d: usize, bytes: &[u8], trace: &mut Trace) {
+        self.dirs[d].written += bytes.len() as u64;
+        self.tee(d, bytes, trace);
+    }
+
+    /// Rebuild the wire history from a recorded run: the reader of `d` consumed `n` more bytes.
+    pub fn replay_read(&mut self, d: usize, n: usize, trace: &mut Trace) {
+        let conn = self.conn;
+        let dir = &mut self.dirs[d];
+        dir.read += n as u64;
+        dir.delivered = dir.delivered.max(dir.read);
+        trace.push(conn, EvK::ReadOff { dir: d as u8, total: dir.read });
+        while dir.next_unread < dir.frames.len() && dir.frames[dir.next_unread].off_end <= dir.read {
+            let idx = dir.next_unread;
+            let t = trace.push(conn, EvK::R { dir: d as u8, idx: idx as u32 });
+            dir.t_read[idx] = t;
+            dir.next_unread += 1;
+        }
+    }
+
     fn tee(&mut self, d: usize, bytes: &[u8], trace: &mut Trace) {
         let conn = self.conn;
         let dir = &mut self.dirs[d];
